@@ -2,4 +2,4 @@
 From Coq Require Import Extraction ExtrOcamlBasic.
 From BS Require Import Base MpSpec MpModel MpSaveModel MpScopeSpec MpLoadModel.
 Extraction Language OCaml.
-Extraction "../ml/gen/mpload_model.ml" load_bytes default_of fill shape_of has_shape modelled decode.
+Extraction "../ml/gen/mpload_model.ml" load_bytes load_bytes_into default_of keep shape_of has_shape modelled decode.
